@@ -3261,6 +3261,13 @@ nested_parse_template_instantiation(CPPTemplateScope *scope) {
       ++pi;
     }
 
+    if (_state == S_eof) {
+      // The input ended inside the argument list; with a parameter pack we
+      // would otherwise keep asking for one more argument forever.
+      _parsing_template_params = false;
+      break;
+    }
+
     _state = S_nested;
     _paren_nesting = 0;
   }
